@@ -161,6 +161,25 @@ static void cancel_only(int kind){ struct S *s=calloc(1,sizeof *s); s->kind=kind
   if(atomic_load(&overl)) fail("the cancel handler of a source without event handler ran while its serial target queue was running another block: kind",kind,0,0);
   if(atomic_load(&s->cancel_runs)!=1) fail("the cancel handler of a source without event handler did not run exactly once (5 s): kind/runs",kind,atomic_load(&s->cancel_runs),0);
   dispatch_release(s->ds); dispatch_sync(s->q,^{}); dispatch_release(s->q); close(s->p[0]); close(s->p[1]); }
+// dispatch_source_cancel_and_wait called from another thread while the event handler is IN PROGRESS (the caller cannot take the source's
+// lock and has to be told when the cancellation is complete): it returns - after the handler has returned - and no invocation follows
+struct cwb { dispatch_source_t ds; _Atomic int in, out, ret, after; };
+static void cwb_ev(void *c){ struct cwb *x=c; if(atomic_load(&x->ret)) atomic_fetch_add(&x->after,1); atomic_store(&x->in,1); usleep(30000); atomic_store(&x->out,1); }
+static void *cwb_thread(void *a){ struct cwb *x=a; dispatch_source_cancel_and_wait(x->ds); atomic_store(&x->ret, atomic_load(&x->out) ? 1 : 2); return 0; }
+static void cw_busy(int kind){ struct cwb *x=calloc(1,sizeof *x); int p[2]; if(pipe(p)){} dispatch_queue_t q=dispatch_queue_create("cwb",NULL);
+  switch(kind){ case 0: x->ds=dispatch_source_create(DISPATCH_SOURCE_TYPE_DATA_ADD,0,0,q); break;
+    case 1: x->ds=dispatch_source_create(DISPATCH_SOURCE_TYPE_TIMER,0,0,q); dispatch_source_set_timer(x->ds,dispatch_time(DISPATCH_TIME_NOW,1000000),DISPATCH_TIME_FOREVER,0); break;
+    default: x->ds=dispatch_source_create(DISPATCH_SOURCE_TYPE_READ,(uintptr_t)p[0],0,q); break; }
+  dispatch_set_context(x->ds,x); dispatch_source_set_event_handler_f(x->ds,cwb_ev); dispatch_activate(x->ds);
+  if(kind==0) dispatch_source_merge_data(x->ds,1); else if(kind==2){ char c=1; if(write(p[1],&c,1)){} }
+  for(int w=0; w<30000 && !atomic_load(&x->in); w++) usleep(100);
+  if(!atomic_load(&x->in)){ fail("a source never fired (3 s): kind",kind,0,0); return; }
+  pthread_t t; pthread_create(&t,0,cwb_thread,x);
+  for(int w=0; w<50000 && !atomic_load(&x->ret); w++) usleep(100);
+  if(!atomic_load(&x->ret)) fail("dispatch_source_cancel_and_wait called while the event handler was in progress did not return within 5 s although the handler had returned: kind (0 data, 1 timer, 2 read) / handler returned",kind,atomic_load(&x->out),0);
+  else if(atomic_load(&x->ret)==2) fail("dispatch_source_cancel_and_wait returned while the event handler was still running: kind",kind,0,0);
+  else { pthread_join(t,0); usleep(3000); if(atomic_load(&x->after)) fail("the event handler was invoked after dispatch_source_cancel_and_wait had returned: kind",kind,0,0);
+    dispatch_release(x->ds); dispatch_sync(q,^{}); dispatch_release(q); close(p[0]); close(p[1]); } }
 int main(int argc,char**argv){ seed=argc>1?strtoull(argv[1],0,0):1; int rounds=argc>2?atoi(argv[2]):3; signal(SIGUSR2,SIG_IGN); signal(SIGPIPE,SIG_IGN); long n=0;
   trbuf=malloc(TRMAX); _dispatch_verif_source_cb=srccb;
   det_phase=1; for(int v=0; v<16 && !viol; v++){ det(v); n++; } for(int v=0; v<16 && !viol; v++){ det_timer(v); n++; } det_phase=0;
@@ -170,6 +189,7 @@ int main(int argc,char**argv){ seed=argc>1?strtoull(argv[1],0,0):1; int rounds=a
     one(kind,scen); n++; }
   _dispatch_verif_source_cb=0;
   for(int r=0;r<rounds && !viol;r++) for(int kind=0;kind<5 && !viol;kind++){ cancel_only(kind); n++; }
+  for(int r=0;r<rounds && !viol;r++) for(int kind=0;kind<3 && !viol;kind++){ cw_busy(kind); n++; }
   if(!viol){ quiet_cancel(rounds*150); n+=rounds*150; }
   if(viol) printf("ORACLE VIOL seed=%llu %s\n",(unsigned long long)seed,vmsg); else printf("ORACLE ok items=%ld\n",n);
   fwrite(trbuf,1,trlen,stdout);
